@@ -1773,3 +1773,55 @@ def h_e_mat4_14(b: int, c: int, d: int, tn: bool) -> bool:
     post: _
     """
     return untraced(_mat, 14, pick(b, 0, 14), pick(c, 0, 14), pick(d, 0, 14), 4, pickb(tn))
+
+
+# ------------------------------------------------ hand-written bipartite GML / dot (not produced by the writer)
+def _bip_text(fmt, l, r, bits, order, flips):
+    """nodes in one of three declaration orders, every edge written in either orientation"""
+    P = [(u, v) for u in range(1, l + 1) for v in range(1, r + 1)]
+    E = [P[i] for i in range(len(P)) if bits >> i & 1]
+    left = [('L%d' % u, 0) for u in range(1, l + 1)]
+    right = [('R%d' % v, 1) for v in range(1, r + 1)]
+    if order == 0:
+        nodes = left + right
+    elif order == 1:
+        nodes = right + left
+    else:
+        nodes = [x for pair in zip(left, right) for x in pair] + left[len(right):] + right[len(left):]
+    ids = {name: i + 1 for i, (name, _) in enumerate(nodes)}
+    if fmt == 'gml':
+        out = ['graph [']
+        for name, side in nodes:
+            out.append('  node [ id %d label "%s" bipartite %d ]' % (ids[name], name, side))
+        for k, (u, v) in enumerate(E):
+            a, b = ('L%d' % u, 'R%d' % v) if not (flips >> k & 1) else ('R%d' % v, 'L%d' % u)
+            out.append('  edge [ source %d target %d ]' % (ids[a], ids[b]))
+        out.append(']')
+    else:
+        out = ['graph G {']
+        for name, side in nodes:
+            out.append('  %s [bipartite=%d];' % (name, side))
+        for k, (u, v) in enumerate(E):
+            a, b = ('L%d' % u, 'R%d' % v) if not (flips >> k & 1) else ('R%d' % v, 'L%d' % u)
+            out.append('  %s -- %s;' % (a, b))
+        out.append('}')
+    return '\n'.join(out) + '\n', E
+
+
+def _bip_handwritten(fi, l, r, bits, order, flips):
+    fmt = ['gml', 'dot'][fi]
+    text, E = _bip_text(fmt, l, r, bits, order, flips)
+    G = readGraph(io.StringIO(text), 'bipartite', fmt)
+    return (G.left_order(), G.right_order(), sorted(G.edges())) == (l, r, sorted(E))
+
+
+def h_e_bip_handwritten(fi: int, l: int, r: int, bits: int, order: int, flips: int) -> bool:
+    """
+    pre: 0 <= fi <= 1 and 1 <= l <= 3 and 1 <= r <= 2 and 0 <= bits <= 15 and 0 <= order <= 2 and 0 <= flips <= 3
+    post: _
+    """
+    ll, rr = pick(l, 1, 3), pick(r, 1, 2)
+    b = pick(bits, 0, 15)
+    if ll == 3:
+        b = b * 5 % 64          # a spread of edge sets on the 3x2 sides
+    return untraced(_bip_handwritten, pick(fi, 0, 1), ll, rr, b % (1 << (ll * rr)), pick(order, 0, 2), pick(flips, 0, 3))
